@@ -10,7 +10,7 @@ import (
 	"github.com/hashicorp/nodeenrollment/types"
 	"github.com/hashicorp/nodeenrollment/zzverif/vf"
 	"github.com/hashicorp/nodeenrollment/zzverif/vfs"
-		"google.golang.org/protobuf/types/known/timestamppb"
+	"google.golang.org/protobuf/types/known/timestamppb"
 )
 
 var VfHarnesses = map[string]func(){"VerifC08Rotate": VerifC08Rotate}
